@@ -93,6 +93,7 @@ func TestVerif_C20(t *testing.T) {
 		vfC20Server(rec, s)
 	}
 	vfC20ExecuteWithWorker(rec)
+	vfC20LongTask(rec)
 }
 
 func vfC20Scenario(rec *evid.Rec, s int) {
@@ -544,5 +545,123 @@ func vfC20ExecuteWithWorker(rec *evid.Rec) {
 			}
 		}
 		srv.Close()
+	}
+}
+
+// vfC20LongTask: a task holds a worker for longer than any internal patience (6.5 s) while Stop or
+// Resize is called with tasks queued behind it. The verdicts are about states, not about how long
+// anything took: once Stop has returned and the long task has finished and no worker goroutine
+// exists, every queued submitter must have been told (result or closed channel); after a Resize has
+// returned, at most the new number of tasks run at once.
+func vfC20LongTask(rec *evid.Rec) {
+	for _, action := range []string{"Stop", "Resize-1-to-2"} {
+		host := &AbsfsNFS{logger: log.New(io.Discard, "", 0)}
+		pool := NewWorkerPool(1, host)
+		pool.Start()
+		var inflight, peak atomic.Int32
+		gateLong := make(chan struct{})
+		started := make(chan struct{})
+		body := func(gate chan struct{}, onStart func()) func() interface{} {
+			return func() interface{} {
+				n := inflight.Add(1)
+				for {
+					p := peak.Load()
+					if n <= p || peak.CompareAndSwap(p, n) {
+						break
+					}
+				}
+				if onStart != nil {
+					onStart()
+				}
+				if gate != nil {
+					<-gate
+				}
+				inflight.Add(-1)
+				return "done"
+			}
+		}
+		var once sync.Once
+		long := pool.Submit(body(gateLong, func() { once.Do(func() { close(started) }) }))
+		select {
+		case <-started:
+		case <-time.After(20 * time.Second):
+			rec.Inconclusive(1)
+			close(gateLong)
+			pool.Stop()
+			continue
+		}
+		var queued []chan interface{}
+		for i := 0; i < 2; i++ {
+			if ch := pool.Submit(body(nil, nil)); ch != nil {
+				queued = append(queued, ch)
+			}
+		}
+		actDone := make(chan struct{})
+		go func() {
+			defer close(actDone)
+			if action == "Stop" {
+				pool.Stop()
+			} else {
+				pool.Resize(2)
+			}
+		}()
+		time.Sleep(6500 * time.Millisecond) // the long task is simply long
+		var gates []chan struct{}
+		if action != "Stop" {
+			// while the long task still runs: whatever Resize has done so far, submit gated tasks and
+			// look at how many run at once (allowed: 2 after the resize returned, and never more than 2)
+			select {
+			case <-actDone:
+				for i := 0; i < 4; i++ {
+					g := make(chan struct{})
+					gates = append(gates, g)
+					pool.Submit(body(g, nil))
+				}
+				for y := 0; y < 2000; y++ {
+					runtime.Gosched()
+				}
+				time.Sleep(20 * time.Millisecond)
+			default:
+			}
+		}
+		close(gateLong)
+		select {
+		case <-actDone:
+		case <-time.After(30 * time.Second):
+			rec.Inconclusive(1)
+			continue
+		}
+		rec.Eval(1)
+		for _, g := range gates {
+			close(g)
+		}
+		if action == "Stop" {
+			// Stop has returned and the long task was released: wait until no worker goroutine exists
+			for d := time.Now().Add(20 * time.Second); time.Now().Before(d) && vfGoroutinesWith("absnfs.(*WorkerPool).worker") > 0; {
+				time.Sleep(5 * time.Millisecond)
+			}
+			if vfGoroutinesWith("absnfs.(*WorkerPool).worker") == 0 {
+				unresolved := 0
+				for _, ch := range append(queued, long) {
+					select {
+					case <-ch:
+					default:
+						unresolved++
+					}
+				}
+				if unresolved > 0 {
+					rec.Violate("C20/accepted-task-abandoned/stop-while-a-task-runs-long", fmt.Sprintf("Stop was called while one task held the only worker for 6.5 s with %d tasks queued; Stop has returned, the long task has finished, no worker goroutine exists, and %d submitters have neither a result nor a closed channel", len(queued), unresolved), nil)
+				}
+				rec.Distinct(fmt.Sprintf("long-task|Stop|unresolved=%d", unresolved))
+			} else {
+				rec.Inconclusive(1)
+			}
+		} else {
+			if p := peak.Load(); p > 2 {
+				rec.Violate("C20/more-tasks-running-than-pool-size/resize-while-a-task-runs-long", fmt.Sprintf("Resize(2) of a pool of 1 while its worker was busy for 6.5 s: %d tasks ran at once", p), nil)
+			}
+			rec.Distinct(fmt.Sprintf("long-task|Resize|peak=%d", peak.Load()))
+			pool.Stop()
+		}
 	}
 }
